@@ -93,11 +93,6 @@ theorem lamport_increases_along_parents (g : List Nat) (es : List Ev) (hnd : (es
       (e.op ≠ "" → ∃ p tp, (runAll (St.init g) es).get e.op = some p ∧ p.lamport = some tp ∧ tp < t) :=
   lamport_parents g es hnd hfresh x e hx
 
-/-- `a` is a proper ancestor of `b` in the stored history: a non-empty path of parent references -/
-inductive ProperAncestor (s : St) : String → String → Prop
-  | parent {a b : String} {eb : Ev} : s.get b = some eb → a ≠ "" → (eb.sp = a ∨ eb.op = a) → ProperAncestor s a b
-  | trans {a b c : String} : ProperAncestor s a b → ProperAncestor s b c → ProperAncestor s a c
-
 /-- **never later within a block, on the operational model**: a proper ancestor has a strictly
     smaller Lamport timestamp than its descendant; with `frame_order_respects_lamport` it is
     committed earlier whenever both are in the same frame -/
@@ -106,22 +101,38 @@ theorem lamport_respects_ancestry_operational (g : List Nat) (es : List Ev) (hnd
     (h : ProperAncestor (runAll (St.init g) es) a b) :
     ∃ ea eb ta tb, (runAll (St.init g) es).get a = some ea ∧ (runAll (St.init g) es).get b = some eb ∧
       ea.lamport = some ta ∧ eb.lamport = some tb ∧ ta < tb := by
-  induction h with
-  | @parent a b eb hb hne hpar =>
-    obtain ⟨t, ht, h1, h2⟩ := lamport_parents g es hnd hfresh b eb hb
-    rcases hpar with hp | hp
-    · subst hp
-      obtain ⟨p, tp, hp1, hp2, hp3⟩ := h1 hne
-      exact ⟨p, eb, tp, t, hp1, hb, hp2, ht, hp3⟩
-    · subst hp
-      obtain ⟨p, tp, hp1, hp2, hp3⟩ := h2 hne
-      exact ⟨p, eb, tp, t, hp1, hb, hp2, ht, hp3⟩
-  | trans _ _ ih1 ih2 =>
-    obtain ⟨ea, eb1, ta, tb1, ha, hb1, hta, htb1, hlt1⟩ := ih1
-    obtain ⟨eb2, ec, tb2, tc, hb2, hc, htb2, htc, hlt2⟩ := ih2
-    rw [hb1] at hb2; injection hb2 with hb2; subst hb2
-    rw [htb1] at htb2; injection htb2 with htb2; subst htb2
-    exact ⟨ea, ec, ta, tc, ha, hc, hta, htc, by omega⟩
+  have hI := runAll_linv (St.init g) es [] (init_all g) (init_linv g) (by simpa using hnd) hfresh
+  generalize runAll (St.init g) es = s at hI h
+  obtain ⟨ta, tb, hta, htb, hlt⟩ := hI.anc_lt h
+  unfold St.lamportOf at hta htb
+  cases ha : s.get a with
+  | none => rw [ha] at hta; cases hta
+  | some ea =>
+    cases hb : s.get b with
+    | none => rw [hb] at htb; cases htb
+    | some eb =>
+      rw [ha] at hta; rw [hb] at htb
+      exact ⟨ea, eb, ta, tb, rfl, rfl, by simpa using hta, by simpa using htb, hlt⟩
+
+/-- **the committed order of a block extends ancestry** (operational model): in any state in which
+    the Lamport invariant holds — every state reachable by insertions from genesis
+    (`lamport_increases_along_parents`), and it is kept by every pass, so also the states in which
+    `ProcessDecidedRounds` builds a frame — if one event of the sorted frame is a proper ancestor of
+    another, it comes first; the block lists the events, and hence their transactions, in that order
+    (`block_payload_exact`) -/
+theorem frame_order_extends_ancestry (s : St) (hI : LInv s) (r : Int) (ri : RoundInfo) (i j : Nat)
+    (hi : i < (s.getFrame r ri).2.length) (hj : j < (s.getFrame r ri).2.length)
+    (h : ProperAncestor s ((s.getFrame r ri).2[i]).id ((s.getFrame r ri).2[j]).id) : i < j :=
+  HG.frame_order_extends_ancestry s hI r ri i j hi hj h
+
+/-- the invariant used above holds in every reachable state and is kept by every step that keeps
+    what is set and touches attributes only (all consensus passes) -/
+theorem lamport_invariant_reachable_and_kept (g : List Nat) (es : List Ev) (hnd : (es.map (·.id)).Nodup)
+    (hfresh : ∀ e ∈ es, e.id ≠ "" ∧ e.lamport = none ∧ e.rr = none) :
+    LInv (runAll (St.init g) es) ∧
+    (∀ s s' : St, AttrOnly s s' → Final s s' → LInv s → LInv s') :=
+  ⟨runAll_linv (St.init g) es [] (init_all g) (init_linv g) (by simpa using hnd) hfresh,
+   fun _ _ a f h => h.of_final a f⟩
 
 /-- **an event is received strictly after the round it was created in** (operational model): an event
     that has a round received has a round, and the round received is strictly larger — the search of
